@@ -292,6 +292,9 @@ func (vm *Type) Run(retResult bool) (value.Type, error) {
 			b, ok := src0.ToBool()
 
 			if !ok {
+				if src0.IsNil() {
+					return vm.dumpStack(ctxp, ip, value.ErrNil, src0)
+				}
 				return vm.dumpStack(ctxp, ip, value.ErrType, src0)
 			}
 			if (opCode == bytecode.JMPF && !b) || (opCode == bytecode.JMPT && b) {
